@@ -2003,3 +2003,33 @@ Theorem session_timer_reset : forall par d st o1 o2 pop1 pop2,
   run_session par d st [Dispatch o1 (Some (fun _ => true)); Evaluate pop1; Dispatch o2 None; Evaluate pop2] =
   [evaluate_fresh par o1 d (fun _ => true) pop1; evaluate_fresh par o2 d forever_timer pop2].
 Proof. reflexivity. Qed.
+
+(* several dispatchers used alternately: the answers of dispatcher j are those of its own session *)
+Lemma run_session_step_op : forall par d st s rest,
+  run_session par d st (s :: rest) =
+  snd (step_op par (d, st) s) ++
+  run_session par (fst (fst (step_op par (d, st) s))) (snd (fst (step_op par (d, st) s))) rest.
+Proof. intros. destruct s; reflexivity. Qed.
+
+Theorem multi_independent : forall par steps cfg j,
+  map snd (filter (fun ja => Nat.eqb (fst ja) j) (run_multi par cfg steps)) =
+  run_session (par j) (fst (cfg j)) (snd (cfg j)) (map snd (filter (fun js => Nat.eqb (fst js) j) steps)).
+Proof.
+  induction steps as [|[i s] steps IH]; intros cfg j; [reflexivity|].
+  cbn [run_multi filter fst].
+  destruct (step_op (par i) (cfg i) s) as [c' out] eqn:E.
+  rewrite filter_app, map_app, IH.
+  destruct (Nat.eqb i j) eqn:Eij.
+  - apply Nat.eqb_eq in Eij. subst i. cbn [map snd].
+    rewrite run_session_step_op. rewrite <- surjective_pairing, E. cbn [fst snd].
+    rewrite Nat.eqb_refl. f_equal.
+    assert (F : forall out0 : list (res (list ind) * list ev),
+              map snd (filter (fun ja : nat * (res (list ind) * list ev) => Nat.eqb (fst ja) j) (map (pair j) out0)) = out0).
+    { induction out0 as [|a l IHl]; [reflexivity|]. cbn [map filter fst]. rewrite Nat.eqb_refl. cbn [map snd]. f_equal. exact IHl. }
+    apply F.
+  - assert (Eji : Nat.eqb j i = false) by (rewrite Nat.eqb_sym; exact Eij). rewrite Eji.
+    assert (F : forall out0 : list (res (list ind) * list ev),
+              filter (fun ja : nat * (res (list ind) * list ev) => Nat.eqb (fst ja) j) (map (pair i) out0) = []).
+    { induction out0 as [|a l IHl]; [reflexivity|]. cbn [map filter fst]. rewrite Eij. exact IHl. }
+    rewrite F. reflexivity.
+Qed.
